@@ -213,7 +213,10 @@ func (it *cmap0Iter) Char() (rune, GID) {
 
 func (s cmap0) Iter() CmapIter {
 	keys := make([]rune, 0, len(s))
-	for k := range s {
+	for k, gid := range s {
+		if gid == 0 { // not found, see Lookup
+			continue
+		}
 		keys = append(keys, k)
 	}
 	return &cmap0Iter{data: s, keys: keys}
@@ -276,49 +279,46 @@ type cmap4Iter struct {
 	pos2 int // either into data[pos1].indexes or an offset between start and end
 }
 
+// glyph returns the glyph for the rune [c], which must be in the segment,
+// or 0 if it is not mapped
+func (entry cmapEntry16) glyph(c uint16) uint16 {
+	if entry.indexes == nil {
+		return c + entry.delta
+	}
+	if glyph := entry.indexes[c-entry.start]; glyph != 0 {
+		return uint16(glyph) + entry.delta // arithmetic modulo 0x10000
+	}
+	return 0
+}
+
 func (it *cmap4Iter) Next() bool {
-	// skip the entries with a zero glyph index: Lookup reports no glyph for them
+	// skip the runes mapped to the glyph 0, for which Lookup reports no glyph
 	for it.pos1 < len(it.data) {
 		entry := it.data[it.pos1]
-		if entry.indexes == nil || entry.indexes[it.pos2] != 0 {
+		if entry.glyph(entry.start+uint16(it.pos2)) != 0 {
 			return true
 		}
-		if it.pos2 == len(entry.indexes)-1 {
-			it.pos2 = 0
-			it.pos1++
-		} else {
-			it.pos2++
-		}
+		it.advance(entry)
 	}
 	return false
 }
 
+// advance moves to the next rune of the current segment, or to the next segment
+func (it *cmap4Iter) advance(entry cmapEntry16) {
+	if uint16(it.pos2) == entry.end-entry.start {
+		// we have read the last glyph in this part
+		it.pos2 = 0
+		it.pos1++
+	} else {
+		it.pos2++
+	}
+}
+
 func (it *cmap4Iter) Char() (r rune, gy GID) {
 	entry := it.data[it.pos1]
-	if entry.indexes == nil {
-		r = rune(it.pos2 + int(entry.start))
-		gy = GID(uint16(it.pos2) + entry.start + entry.delta)
-		if uint16(it.pos2) == entry.end-entry.start {
-			// we have read the last glyph in this part
-			it.pos2 = 0
-			it.pos1++
-		} else {
-			it.pos2++
-		}
-	} else { // pos2 is the array index
-		r = rune(it.pos2) + rune(entry.start)
-		if glyph := entry.indexes[it.pos2]; glyph != 0 {
-			gy = GID(uint16(glyph) + entry.delta) // arithmetic modulo 0x10000, as in Lookup
-		}
-		if it.pos2 == len(entry.indexes)-1 {
-			// we have read the last glyph in this part
-			it.pos2 = 0
-			it.pos1++
-		} else {
-			it.pos2++
-		}
-	}
-
+	r = rune(it.pos2 + int(entry.start))
+	gy = GID(entry.glyph(entry.start + uint16(it.pos2)))
+	it.advance(entry)
 	return r, gy
 }
 
@@ -375,6 +375,10 @@ type cmap6Or10Iter struct {
 }
 
 func (it *cmap6Or10Iter) Next() bool {
+	// skip the runes mapped to the glyph 0, for which Lookup reports no glyph
+	for it.pos < len(it.data.entries) && it.data.entries[it.pos] == 0 {
+		it.pos++
+	}
 	return it.pos < len(it.data.entries)
 }
 
@@ -431,7 +435,22 @@ type cmap12Iter struct {
 	pos2 int // offset from start
 }
 
-func (it *cmap12Iter) Next() bool { return it.pos1 < len(it.data) }
+func (it *cmap12Iter) Next() bool {
+	// skip the runes mapped to the glyph 0, for which Lookup reports no glyph
+	for it.pos1 < len(it.data) {
+		entry := it.data[it.pos1]
+		if uint32(it.pos2)+entry.StartGlyphID != 0 {
+			return true
+		}
+		if uint32(it.pos2) == entry.EndCharCode-entry.StartCharCode {
+			it.pos2 = 0
+			it.pos1++
+		} else {
+			it.pos2++
+		}
+	}
+	return false
+}
 
 func (it *cmap12Iter) Char() (r rune, gy GID) {
 	entry := it.data[it.pos1]
@@ -481,6 +500,11 @@ type cmap13Iter struct {
 }
 
 func (it *cmap13Iter) Next() bool {
+	// skip the groups mapped to the glyph 0, for which Lookup reports no glyph
+	for it.pos1 < len(it.data) && it.data[it.pos1].StartGlyphID == 0 {
+		it.pos1++
+		it.pos2 = 0
+	}
 	return it.pos1 < len(it.data)
 }
 
@@ -747,17 +771,27 @@ func (cm cmap4) RuneRanges(dst [][2]rune) [][2]rune {
 	dst = dst[:0]
 	for _, e := range cm {
 		if e.indexes == nil {
-			dst = appendRuneRange(dst, rune(e.start), rune(e.end))
+			// at most one rune of the segment is mapped to the glyph 0
+			// (and thus not found by Lookup)
+			if zero := -e.delta; e.start <= zero && zero <= e.end {
+				if e.start < zero {
+					dst = appendRuneRange(dst, rune(e.start), rune(zero)-1)
+				}
+				if zero < e.end {
+					dst = appendRuneRange(dst, rune(zero)+1, rune(e.end))
+				}
+			} else {
+				dst = appendRuneRange(dst, rune(e.start), rune(e.end))
+			}
 			continue
 		}
-		// the entries with a zero glyph index are not mapped (see Lookup):
-		// emit one range for each run of non zero entries
+		// emit one range for each run of runes mapped to a non zero glyph
 		for i := 0; i < len(e.indexes); i++ {
-			if e.indexes[i] == 0 {
+			if e.glyph(e.start+uint16(i)) == 0 {
 				continue
 			}
 			first := i
-			for i+1 < len(e.indexes) && e.indexes[i+1] != 0 {
+			for i+1 < len(e.indexes) && e.glyph(e.start+uint16(i+1)) != 0 {
 				i++
 			}
 			dst = appendRuneRange(dst, rune(e.start)+rune(first), rune(e.start)+rune(i))
@@ -791,14 +825,33 @@ func (cm cmap12) RuneRanges(dst [][2]rune) [][2]rune {
 	dst = dst[:0]
 	for _, e := range cm {
 		start, end := rune(e.StartCharCode), rune(e.EndCharCode)
-		if L := len(dst); L != 0 && dst[L-1][1] == start {
-			// grow the previous range
-			dst[L-1][1] = end
+		// at most one rune of the group is mapped to the glyph 0
+		// (and thus not found by Lookup)
+		if offset := -e.StartGlyphID; offset <= e.EndCharCode-e.StartCharCode {
+			zero := start + rune(offset)
+			if start < zero {
+				dst = appendRuneRange(dst, start, zero-1)
+			}
+			if zero < end {
+				dst = appendRuneRange(dst, zero+1, end)
+			}
 		} else {
-			dst = append(dst, [2]rune{start, end})
+			dst = appendRuneRange(dst, start, end)
 		}
 	}
 	return dst
 }
 
-func (cm cmap13) RuneRanges(dst [][2]rune) [][2]rune { return cmap12(cm).RuneRanges(dst) }
+func (cm cmap13) RuneRanges(dst [][2]rune) [][2]rune {
+	if cap(dst) < len(cm) {
+		dst = make([][2]rune, 0, len(cm))
+	}
+	dst = dst[:0]
+	for _, e := range cm {
+		if e.StartGlyphID == 0 { // not found by Lookup
+			continue
+		}
+		dst = appendRuneRange(dst, rune(e.StartCharCode), rune(e.EndCharCode))
+	}
+	return dst
+}
